@@ -84,6 +84,9 @@ def _add_markdown_hard_break_handling(base_wrapper: LineWrapper) -> LineWrapper:
         # Handle empty input.
         if not segments:
             return ""
+        if len(segments) > 1 and markdown_first_line_is_rule(segments[:2]):
+            # Several lines for sure: a first segment like `[label]:` must not start a definition.
+            segments[0] = markdown_escape_first_word(segments[0])
         # Handle single segment (no hard line breaks).
         if len(segments) == 1:
             return _protect_trailing_backslashes(
